@@ -3230,6 +3230,7 @@ impl Value {
             })
         }
         let mut has_wrap_to_string = false;
+        let mut has_static_tail = false;
         loop {
             if until(ps) || ps.ended() {
                 break;
@@ -3285,6 +3286,7 @@ impl Value {
                             double_brace_location,
                             binding_map_keys: None,
                         };
+                        has_static_tail = false;
                         continue;
                     }
                     Some(Value::Static { .. }) => {
@@ -3301,15 +3303,8 @@ impl Value {
                 binding_map_keys,
             } = ret
             {
-                let need_convert = if let Expression::Plus { right, .. } = &*expression {
-                    if let Expression::LitStr { .. } = &**right {
-                        false
-                    } else {
-                        true
-                    }
-                } else {
-                    true
-                };
+                // the tail to append to must be the literal added here, not a literal written in the binding
+                let need_convert = !has_static_tail;
                 if need_convert {
                     let left = if has_wrap_to_string {
                         expression
@@ -3321,6 +3316,7 @@ impl Value {
                         location: start_pos..start_pos,
                     });
                     has_wrap_to_string = true;
+                    has_static_tail = true;
                     let expression = Box::new(Expression::Plus {
                         left,
                         right,
